@@ -44,6 +44,38 @@ fn main() {
                 writeln!(w, "{}", l).unwrap();
             }
         }
+        Some("deep") => {
+            // C13 / finding F8: the typed API recurses on the cause chain (remap, Display, Drop).
+            // Runs on a thread with an 8 MiB stack (the default main-thread stack); a stack
+            // overflow kills the process, which the runner observes as a signal.
+            let n: usize = args[2].parse().expect("depth");
+            let h = std::thread::Builder::new()
+                .stack_size(8 << 20)
+                .spawn(move || {
+                    let mut text = String::from("a.b: top\n    at a.b.m(F:1)\n");
+                    for i in 0..n {
+                        text.push_str(&format!("Caused by: a.b: c{}\n    at a.b.m(F:{})\n", i, i % 7));
+                    }
+                    let mapping = "com.A -> a.b:\n    1:3:void run():10:12 -> m\n";
+                    let mapper = proguard::ProguardMapper::from(mapping);
+                    let parsed = proguard::StackTrace::try_parse(text.as_bytes()).expect("parses");
+                    let typed = mapper.remap_stacktrace_typed(&parsed);
+                    let printed = typed.to_string();
+                    let text_api = mapper.remap_stacktrace(&text).expect("text api");
+                    println!("depth={} typed_len={} same_as_text={}", n, printed.len(), printed == text_api);
+                    drop(typed);
+                    drop(parsed);
+                    println!("dropped");
+                })
+                .unwrap();
+            match h.join() {
+                Ok(()) => {}
+                Err(_) => {
+                    println!("PANIC");
+                    std::process::exit(3);
+                }
+            }
+        }
         Some("run-xver") => {
             let mut input = String::new();
             std::io::stdin().read_to_string(&mut input).unwrap();
